@@ -95,7 +95,23 @@ def run(ctx):
     # the token) hands the member of whichever enumeration resolved the token first to all the others ("ctr", "l", "none" ... occur
     # in several)
     foreign = None
+    # the names a member is returned through (`return member`, `return cast(T, member)`)
+    ret_names = set()
+    for r_ in [x for x in ast.walk(fx.node) if isinstance(x, ast.Return) and x.value is not None]:
+        v_ = r_.value
+        while isinstance(v_, ast.Call) and dotted(v_.func) in ("cast", "typing.cast") and len(v_.args) == 2:
+            v_ = v_.args[1]
+        if isinstance(v_, ast.Name):
+            ret_names.add(v_.id)
+    feeds_return = set()
+    for a_ in ast.walk(fx.node):
+        if isinstance(a_, ast.Assign) and any(isinstance(t_, ast.Name) and t_.id in ret_names for t_ in a_.targets):
+            feeds_return |= {id(x) for x in ast.walk(a_.value)}
+        elif isinstance(a_, ast.Return) and a_.value is not None:
+            feeds_return |= {id(x) for x in ast.walk(a_.value)}
     for n_ in ast.walk(fx.node):
+        if id(n_) not in feeds_return:
+            continue      # e.g. a token-to-token alias table applied to the argument: not a source of members
         src_ = None
         if isinstance(n_, ast.Call) and isinstance(n_.func, ast.Attribute) and n_.func.attr in ("get", "setdefault", "pop") and isinstance(n_.func.value, ast.Name):
             src_ = n_.func.value.id
